@@ -49,59 +49,57 @@ Theorem C05_host_case_insensitive_add : forall canon glob_ok t d1 d2,
 Proof. exact host_case_insensitive_add. Qed.
 Print Assumptions C05_host_case_insensitive_add.
 
-(* del removes precisely the selected targets (each of its argument forms, see [del_selects_gen]);
-   the host is compared byte for byte ... *)
+(* del removes precisely the selected targets, for each of its argument forms (see
+   [del_selects_gen]); the host is compared case-insensitively, as for add. *)
 Theorem C05_del_precise : forall canon t d t',
   inv t -> del_route canon t d = Ok t' ->
-  flat t' = filter (fun x => negb (del_selects canon d x)) (flat t).
+  flat t' = filter (fun x => negb (del_selects_ci canon d x)) (flat t).
 Proof. exact del_precise. Qed.
 Print Assumptions C05_del_precise.
 
-(* ... so the documented case-insensitive selection holds when the command names the host in
-   lower case ... *)
-Theorem C05_del_precise_on_domain : forall canon t d t',
-  inv t -> del_route canon t d = Ok t' ->
-  lower (fst (hostpath (d_src d))) = fst (hostpath (d_src d)) ->
-  flat t' = filter (fun x => negb (del_selects_ci canon d x)) (flat t).
-Proof. exact del_precise_ci_on_domain. Qed.
-Print Assumptions C05_del_precise_on_domain.
-
-(* ... and fails otherwise: route del svc Foo.com/ removes nothing (finding F-C05-1). *)
-Theorem C05_host_case_del_refuted :
-  exists t d t', inv t /\ del_route idcanon t d = Ok t' /\
-    flat t' <> filter (fun x => negb (del_selects_ci idcanon d x)) (flat t)
-    /\ nt_text (ex_add_lower ++ nl ++ bs "route del svc Foo.com/") = nt_text ex_add_lower
-    /\ nt_text (ex_add_lower ++ nl ++ bs "route del svc foo.com/") = Ok [].
-Proof. exact host_case_del_refuted. Qed.
-Print Assumptions C05_host_case_del_refuted.
-
-(* weight changes only the matching targets, all to weight / (number of matches); hosts, routes,
-   targets and order are unchanged. *)
+(* weight changes only the matching targets (host case-insensitive), all to weight / (number of
+   matches); hosts, routes, targets and order are unchanged. *)
 Theorem C05_weight_only_matching : forall t d t',
   inv t -> weigh_route t d = Ok t' ->
-  let n := N.of_nat (length (filter (weight_selects d) (flat t))) in
+  let n := N.of_nat (length (filter (weight_selects_ci d) (flat t))) in
   n <> 0 /\
-  flat t' = map (fun x => if weight_selects d x then reweigh (w_divn (d_w d) n) x else x) (flat t)
+  flat t' = map (fun x => if weight_selects_ci d x then reweigh (w_divn (d_w d) n) x else x) (flat t)
   /\ map fst t' = map fst t.
 Proof. exact weight_only_matching. Qed.
 Print Assumptions C05_weight_only_matching.
 
-Theorem C05_weight_only_matching_on_domain : forall t d t',
-  inv t -> weigh_route t d = Ok t' ->
-  lower (fst (hostpath (d_src d))) = fst (hostpath (d_src d)) ->
-  let n := N.of_nat (length (filter (weight_selects_ci d) (flat t))) in
-  flat t' = map (fun x => if weight_selects_ci d x then reweigh (w_divn (d_w d) n) x else x) (flat t).
-Proof. exact weight_only_matching_ci_on_domain. Qed.
-Print Assumptions C05_weight_only_matching_on_domain.
+(* Finding F-C05-1 was REPAIRED in /repo by commit b80fb7f.  Until then delRoute and weighRoute
+   looked the host up as written; [del_route_unrepaired] / [nt_text_unrepaired] model that code:
+   route del svc Foo.com/ removed nothing ... *)
+Theorem C05_host_case_del_refuted :
+  exists t d t', inv t /\ del_route_unrepaired idcanon t d = Ok t' /\
+    flat t' <> filter (fun x => negb (del_selects_ci idcanon d x)) (flat t)
+    /\ nt_text_unrepaired (ex_add_lower ++ nl ++ bs "route del svc Foo.com/") = nt_text_unrepaired ex_add_lower
+    /\ nt_text_unrepaired (ex_add_lower ++ nl ++ bs "route del svc foo.com/") = Ok [].
+Proof. exact host_case_del_refuted. Qed.
+Print Assumptions C05_host_case_del_refuted.
 
-(* route weight svc Foo.com/ ... matches nothing even though the route was added as Foo.com/:
-   NewTable fails with "no target match" (finding F-C05-1). *)
+(* ... and route weight svc Foo.com/ failed with "no target match" for a route added as Foo.com/. *)
 Theorem C05_host_case_weight_refuted :
-  nt_text (ex_add_upper ++ nl ++ bs "route weight svc Foo.com/ weight 0.5") = Err e_no_match
-  /\ exists t, nt_text (ex_add_upper ++ nl ++ bs "route weight svc foo.com/ weight 0.5") = Ok t
+  nt_text_unrepaired (ex_add_upper ++ nl ++ bs "route weight svc Foo.com/ weight 0.5") = Err e_no_match
+  /\ exists t, nt_text_unrepaired (ex_add_upper ++ nl ++ bs "route weight svc foo.com/ weight 0.5") = Ok t
                /\ length (flat t) = 1%nat.
 Proof. exact host_case_weight_refuted. Qed.
 Print Assumptions C05_host_case_weight_refuted.
+
+(* The same witnesses on the model of the code as it is now. *)
+Theorem C05_host_case_del_repaired :
+  nt_text (ex_add_lower ++ nl ++ bs "route del svc Foo.com/") = Ok [].
+Proof. exact host_case_del_repaired. Qed.
+Print Assumptions C05_host_case_del_repaired.
+
+Theorem C05_host_case_weight_repaired :
+  nt_text (ex_add_upper ++ nl ++ bs "route weight svc Foo.com/ weight 0.5")
+  = nt_text (ex_add_upper ++ nl ++ bs "route weight svc foo.com/ weight 0.5")
+  /\ exists t, nt_text (ex_add_upper ++ nl ++ bs "route weight svc Foo.com/ weight 0.5") = Ok t
+               /\ length (flat t) = 1%nat.
+Proof. exact host_case_weight_repaired. Qed.
+Print Assumptions C05_host_case_weight_repaired.
 
 (* Text round trip.  The full character-level statement is
    [Proofs.TableCmd.render_parse_roundtrip_statement] (not proved); proved: its conclusion on a
@@ -151,8 +149,8 @@ Theorem C05_new_table_inv : forall pweight canon glob_ok text t,
 Proof. exact new_table_inv. Qed.
 Print Assumptions C05_new_table_inv.
 
-(* non-vacuity: a real script reaches a table (hence [inv]) on which a weight command matched
-   and a del command removed a target *)
+(* non-vacuity: a real script reaches a table (hence [inv]) on which a weight command and a del
+   command, both naming the host in mixed case, matched *)
 Theorem C05_nonvacuous : exists t, nt_text ex_script = Ok t /\ length (flat t) = 2%nat.
 Proof. exact ex_script_ok. Qed.
 Print Assumptions C05_nonvacuous.
